@@ -1135,8 +1135,13 @@ def _(ex, a):
 
 def _find(ex, m, k):
     """index of key k in association list m.f (entries are [key, value] Aggs), branching on symbolic equality"""
+    if isinstance(k, Ref):
+        k = ex.deref_all(k)
     for i, ent in enumerate(m.f):
-        c = ent.f[0] == k
+        ek = ent.f[0]
+        if isinstance(ek, Ref):            # maps keyed by references (HashMap<&K, _>) compare the referents
+            ek = ex.deref_all(ek)
+        c = ek == k
         if isinstance(c, bool):
             if c:
                 return i
@@ -2599,3 +2604,154 @@ def _(ex, a):
 @prim('RefCell::get_mut')
 def _(ex, a):
     return Ref(a[0].cell, tuple(a[0].path) + (0,))
+
+
+# ------------------------------------------------------------------ sorting: stable sorts by insertion; the *_unstable family
+# additionally takes a free choice among the orders of each run of equal elements - std promises nothing about them
+# ("may reorder equal elements"), and the current implementation does reorder them beyond ~20 elements.
+def key_cmp(ex, x, y):
+    """three-way comparison of two sort keys (ints, Strings of displayed concrete values, tuples, Reverse, gdsl values)"""
+    if isinstance(x, Agg) and x.kind == 'Reverse':
+        return key_cmp(ex, y.f[0], x.f[0])
+    if isinstance(x, Agg) and x.kind in ('String', 'str'):
+        def flat(s):
+            out = ''
+            for t in s.f:
+                if isinstance(t, tuple) and t[0] == 'val':
+                    if is_sym(t[1]):
+                        raise Unsupported('ordering of strings with symbolic content')
+                    out += str(t[1])
+                elif isinstance(t, str):
+                    out += t
+                else:
+                    raise Unsupported(f'ordering of string token {t!r}')
+            return out
+        a, b = flat(x), flat(y)
+        return (a > b) - (a < b)
+    if isinstance(x, Agg) and x.kind == 'tuple':
+        for p, q in zip(x.f, y.f):
+            c = key_cmp(ex, p, q)
+            if c != 0:
+                return c
+        return 0
+    if isinstance(x, (Agg, RcH)) or isinstance(x, Ref):
+        return value_cmp(ex, Ref(Cell(x)), Ref(Cell(y)))
+    return int_cmp(ex, x, y).variant
+
+
+def _sort_impl(ex, sref, cmp3, unstable):
+    base, off, n = _view(ex, sref)
+    bl = ex.deref(base).f
+    items = bl[off:off + n]
+    out = []
+    for it in items:
+        j = len(out)
+        while j > 0 and cmp3(it, out[j - 1]) < 0:
+            j -= 1
+        out.insert(j, it)
+    if unstable and len(out) > 1:
+        res, i = [], 0
+        while i < len(out):
+            j = i + 1
+            while j < len(out) and cmp3(out[j], out[i]) == 0:
+                j += 1
+            run = out[i:j]
+            while len(run) > 1:
+                k = ex.choose(len(run), label='unstable-sort')
+                res.append(run.pop(k))
+            res += run
+            i = j
+        out = res
+    bl[off:off + n] = out
+    return UNIT()
+
+
+def _keyed(ex, f):
+    cache = {}
+
+    def key(it):
+        if id(it) not in cache:
+            cache[id(it)] = (it, ex.call_closure(f, [Ref(Cell(it))]))
+        return cache[id(it)][1]
+    return lambda x, y: key_cmp(ex, key(x), key(y))
+
+
+@prim('slice::sort_by_key', 'slice::sort_by_cached_key')
+def _(ex, a):
+    return _sort_impl(ex, a[0], _keyed(ex, a[1]), False)
+
+
+@prim('slice::sort_unstable_by_key')
+def _(ex, a):
+    return _sort_impl(ex, a[0], _keyed(ex, a[1]), True)
+
+
+def _by(ex, f):
+    return lambda x, y: ex.call_closure(f, [Ref(Cell(x)), Ref(Cell(y))]).variant
+
+
+@prim('slice::sort_by')
+def _(ex, a):
+    return _sort_impl(ex, a[0], _by(ex, a[1]), False)
+
+
+@prim('slice::sort_unstable_by')
+def _(ex, a):
+    return _sort_impl(ex, a[0], _by(ex, a[1]), True)
+
+
+def _plain(ex):
+    return lambda x, y: value_cmp(ex, Ref(Cell(x)), Ref(Cell(y)))
+
+
+P['slice::sort'] = lambda ex, a: _sort_impl(ex, a[0], _plain(ex), False)
+P['slice::sort_unstable'] = lambda ex, a: _sort_impl(ex, a[0], _plain(ex), True)
+
+
+# ------------------------------------------------------------------ derived comparison operators of gdsl's own types and of Option
+def _derived_op(test):
+    def fn(ex, a):
+        r = value_partial_cmp(ex, a[0], a[1])
+        return r.variant == 1 and test(r.f[0].variant)
+    return fn
+
+
+for _op, _t in (('lt', lambda v: v < 0), ('le', lambda v: v <= 0), ('gt', lambda v: v > 0), ('ge', lambda v: v >= 0)):
+    pattern(r'^<(digraph|ungraph|sync_digraph|sync_ungraph)::node::(Node|Edge) as PartialOrd>::%s$' % _op)(_derived_op(_t))
+
+
+def value_eq(ex, ra, rb):
+    """PartialEq::eq of two values behind references, through gdsl's own impls for gdsl types"""
+    x, y = ex.deref(ra), ex.deref(rb)
+    while isinstance(x, Ref) and isinstance(y, Ref):
+        ra, rb = x, y
+        x, y = ex.deref(ra), ex.deref(rb)
+    if isinstance(x, Agg) and x.kind == 'Option':
+        if x.variant != y.variant:
+            return False
+        if x.variant == 0:
+            return True
+        return value_eq(ex, Ref(ra.cell, tuple(ra.path) + (('f', 0),)), Ref(rb.cell, tuple(rb.path) + (('f', 0),)))
+    if isinstance(x, Agg) and x.kind.startswith(FLAVOURS):
+        return as_bool(ex, ex.call(f'<{x.kind}<K, N, E> as PartialEq>::eq', [ra, rb]))
+    if isinstance(x, Agg) and x.kind == 'tuple':
+        return all(value_eq(ex, Ref(ra.cell, tuple(ra.path) + (('f', i),)), Ref(rb.cell, tuple(rb.path) + (('f', i),))) for i in range(len(x.f)))
+    if isinstance(x, Agg):
+        raise Unsupported('PartialEq::eq on ' + x.kind)
+    return as_bool(ex, x == y)
+
+
+@prim('<Option as PartialEq>::eq')
+def _(ex, a):
+    return value_eq(ex, a[0], a[1])
+
+
+@prim('<Option as PartialEq>::ne')
+def _(ex, a):
+    return not value_eq(ex, a[0], a[1])
+
+
+@prim('<K as ToString>::to_string', '<N as ToString>::to_string', '<E as ToString>::to_string', '<usize as ToString>::to_string',
+      '<i64 as ToString>::to_string', '<&K as ToString>::to_string')
+def _(ex, a):
+    return Agg('String', _tokens(ex, a[0]))
